@@ -85,46 +85,64 @@ POINTS = [
 ]
 
 
-def upload_case(ctx, cid):
-    """Two `vsb upload` with the same configuration file never overlap: the first is held while it lists the
-    local storage, the second must fail with the lock error."""
+def upload_case(ctx, cid, point='upload-listing'):
+    """Two `vsb upload` with the same configuration file never overlap.  The configuration holds two upload-enabled
+    backups and a metrics file; the first run is held while it lists the first local storage, or - with a working
+    (emulated) provider - at its very last step, writing the metrics file; the second must fail with the lock
+    error at once and touch neither a storage nor the provider."""
+    from vlib import emu
+    from props import upload_common as uc
     rng = random.Random(cid)
     w = hist.World(ctx, cid, rng)
+    em = emu.Emulator(os.path.join(w.base, 'emu-state'))
+    home = uc.make_gnupghome(w.base)
     try:
         open(os.path.join(w.items[0], 'f'), 'w').write('x')
         w.backup(advance=10)
-        store.write_config(w.cfg, 'b', w.root, [{'path': w.items[0]}], 2, 2,
-                           upload={'provider': {'name': 'dropbox', 'client_id': 'i', 'client_secret': 's', 'refresh_token': 't'},
-                                   'path': '/Backups', 'max_backup_groups': 2, 'encryption_passphrase': 'p'})
+        root2 = os.path.join(w.base, 'storage2')
+        os.makedirs(root2)
+        metrics = os.path.join(w.base, 'metrics.prom')
+        for prov in ('dropbox',):
+            ns = em.namespace(prov)
+            ns.mkdir('/Backups/a'); ns.mkdir('/Backups/b')
+            emu.pe.save_namespace(em.state, ns)
+        em.reload()
+        def spec(name, root, cloud):
+            return ['  - name: %s' % name, '    path: %s' % json.dumps(root), '    backup:', '      max_backup_groups: 2', '      max_backups_per_group: 2',
+                    '      items:', '        - path: %s' % json.dumps(w.items[0]), '    upload:',
+                    '      provider: {name: dropbox, client_id: i, client_secret: s, refresh_token: t}', '      path: %s' % cloud,
+                    '      max_backup_groups: 2', '      encryption_passphrase: p']
+        with open(w.cfg, 'w') as f:
+            f.write('\n'.join(['backups:'] + spec('a', w.root, '/Backups/a') + spec('b', root2, '/Backups/b') + ['prometheus_metrics: %s' % json.dumps(metrics)]) + '\n')
         fifo = os.path.join(w.base, 'fifo')
         os.mkfifo(fifo)
         trace = os.path.join(w.base, 'trace1.txt')
-        p1 = spawn_vsb(ctx, ['-c', w.cfg, 'upload'], w.now, {'TRACE': trace, 'WATCH': w.root, 'PAUSE': 'opendir@%s@1:%s' % (w.root, fifo)})
-        paused = wait_paused(trace)
+        pause = 'opendir@%s@1:%s' % (w.root, fifo) if point == 'upload-listing' else 'open@%s.tmp@1:%s' % (metrics, fifo)
+        env1 = dict(os.environ, TZ='UTC', LC_ALL='C', LD_PRELOAD=store.ensure_shim(), VSBSHIM_ONLY='vsb', VSBSHIM_TIME='%d.000000000' % w.now,
+                    VSBSHIM_TRACE=trace, VSBSHIM_WATCH=w.root + ':' + metrics + '.tmp', VSBSHIM_PAUSE=pause, VSB_VERIF_URL_MAP=em.url_map, GNUPGHOME=home)
+        p1 = subprocess.Popen([core.vsb_exe(ctx), '-c', w.cfg, 'upload'], stdout=subprocess.PIPE, stderr=subprocess.PIPE, env=env1)
+        paused = wait_paused(trace, timeout=90)
+        em.new_requests()
         t0 = time.time()
-        # the refused run must not go on: no access to the local storage, no request to the provider
-        from vlib import emu
-        em = emu.Emulator(os.path.join(w.base, 'emu-state'))
         trace2 = os.path.join(w.base, 'trace2.txt')
-        try:
-            r2 = store.run_vsb(ctx, ['-c', w.cfg, 'upload'], now=w.now + 1, timeout=60, shim_env={'TRACE': trace2, 'WATCH': w.root},
-                               extra_env={'VSB_VERIF_URL_MAP': em.url_map})
-            time.sleep(0.1)
-            went_on = ['request %s' % q['endpoint'] for q in em.new_requests()]
-        finally:
-            em.stop()
+        r2 = store.run_vsb(ctx, ['-c', w.cfg, 'upload'], now=w.now + 1, timeout=60, shim_env={'TRACE': trace2, 'WATCH': w.root + ':' + root2},
+                           extra_env={'VSB_VERIF_URL_MAP': em.url_map, 'GNUPGHOME': home})
+        time.sleep(0.1)
+        went_on = ['request %s' % q['endpoint'] for q in em.new_requests()]
         went_on += ['%s %s' % (x['call'], x['path']) for x in tr.parse(trace2, w.root) if x['call'] not in ('EXIT',)][:3]
         dt = time.time() - t0
         p1.kill()
         try:
-            with open(fifo, 'w') as f:
-                f.write('x')
+            fd = os.open(fifo, os.O_WRONLY | os.O_NONBLOCK)
+            os.write(fd, b'x'); os.close(fd)
         except OSError:
             pass
         p1.wait()
-        return {'point': 'upload-listing', 'paused': paused, 'rc2': r2.rc, 'errors2': r2.errors()[:2], 'dt2': round(dt, 2), 'storage_unchanged': True, 'rc1': 0,
+        return {'point': point, 'paused': paused, 'rc2': r2.rc, 'errors2': r2.errors()[:2], 'dt2': round(dt, 2), 'storage_unchanged': True, 'rc1': 0,
                 'went_on': went_on}
     finally:
+        em.stop()
+        uc.kill_agent(home)
         w.cleanup()
 
 
@@ -156,6 +174,7 @@ def check(ctx):
         for pt in POINTS:
             live.append(live_case(ctx, cid, pt)); cid += 1
         live.append(upload_case(ctx, cid)); cid += 1
+        live.append(upload_case(ctx, cid, 'upload-metrics')); cid += 1
     for c in live:
         if not c['paused']:
             ctx.violation('runtime', 'could not hold run 1 at %s' % c['point'], {'case': c}, found_input=False)
@@ -170,7 +189,7 @@ def check(ctx):
             ctx.violation('property', 'the second run modified the storage while the first was held at %s' % c['point'], {'case': c})
         elif c['dt2'] > 10:
             ctx.violation('property', 'the second run blocked for %.1fs instead of failing immediately' % c['dt2'], {'case': c})
-        if c['point'] != 'upload-listing' and c['rc1'] != 0:
+        if not c['point'].startswith('upload-') and c['rc1'] != 0:
             ctx.violation('property', 'run 1 did not complete after being released at %s (exit %s)' % (c['point'], c['rc1']), {'case': c})
     ctx.coverage.update({
         'evaluations': len(runs) + len(live),
